@@ -903,28 +903,53 @@ class EagerGetitemTensorNumber(Contract):
 
 @register
 class EagerGetitemTensorVariable(Contract):
-    """eager_getitem_tensor_variable: x[..., v] with v a fresh Variable at event position `offset` turns that event dimension
-    into a new LAST input named v: result.data[batch idx, i, remaining event idx] == x.data[batch idx, event idx with i at
-    `offset`]. structure bound: batch rank <= 2, event rank 1..3, every offset."""
+    """eager_getitem_tensor_variable: x[..., v] with v a Variable at event position `offset`.
+    v fresh: that event dimension becomes a new LAST input named v: result.data[batch idx, i, remaining event idx] ==
+    x.data[batch idx, event idx with i at `offset`].
+    v named like a batch input of x (the diagonal x(i)[..., i]): the call is handed to eager_getitem_tensor_tensor with v
+    materialized by x.materialize (callee contract: EagerGetitemTensorTensor, which reads each operand at its own named
+    coordinates) -- it must not be renamed in place and must not raise.
+    structure bound: batch rank <= 2, event rank 1..3, every offset."""
 
     props = ("C01",)
     file = "funsor/tensor.py"
     qualname = "eager_getitem_tensor_variable"
     total = True
-    mutants = (("source and target swapped", "        del perm[source_dim]\n        perm.insert(target_dim, source_dim)", "        del perm[target_dim]\n        perm.insert(source_dim, target_dim)"),)
+    mutants = (
+        ("source and target swapped", "        del perm[source_dim]\n        perm.insert(target_dim, source_dim)", "        del perm[target_dim]\n        perm.insert(source_dim, target_dim)"),
+        ("index variable named like an input renamed in place", "    if rhs.name in lhs.inputs:", "    if False:"),
+    )
 
-    structures = EagerGetitemTensorNumber.structures
+    def structures(self, tier):
+        for b in (0, 1, 2):
+            for e in (1, 2, 3):
+                for off in range(e):
+                    yield "batch=%d,event=%d,offset=%d" % (b, e, off), (b, e, off, None)
+                    for c in range(b):
+                        yield "batch=%d,event=%d,offset=%d,index-named-like-input-%d" % (b, e, off, c), (b, e, off, c)
 
     def build(self, p, st):
-        b, e, off = st
+        b, e, off, c = st
         x, bs, es = mk_tensor(p, tuple(NAMES[:b]), e)
         from .c_terms import VariableM
 
-        v = VariableM("v", MDom(es[off], ()))
-        return Ctx(args=(GetOp(offset=off), x, v), namespace=dict(TENSOR_NS, list=list, range=range), x=x, st=st, es=es, bs=bs, p=p)
+        v = VariableM("v" if c is None else NAMES[c], MDom(es[off], ()))
+        if c is not None:
+            p.assume(bs[NAMES[c]] == es[off])  # typed: one name, one domain
+        calls = []
+        x.materialize = lambda t: ("materialized", t)
+
+        def callee(op, lhs, rhs):
+            calls.append((op, lhs, rhs))
+            return ("eager_getitem_tensor_tensor", len(calls) - 1)
+
+        return Ctx(args=(GetOp(offset=off), x, v), namespace=dict(TENSOR_NS, list=list, range=range, eager_getitem_tensor_tensor=callee), x=x, v=v, st=st, es=es, bs=bs, p=p, calls=calls)
 
     def ensures(self, ctx, result):
-        b, e, off = ctx.st
+        b, e, off, c = ctx.st
+        if c is not None:
+            ok = result == ("eager_getitem_tensor_tensor", 0) and len(ctx.calls) == 1 and ctx.calls[0][0] is ctx.args[0] and ctx.calls[0][1] is ctx.x and isinstance(ctx.calls[0][2], tuple) and ctx.calls[0][2][1] is ctx.v
+            return [("diagonal_delegated_to_tensor_indexing", bool(ok))]
         if not isinstance(result, TensorM):
             return [("returns_tensor", False)]
         names = list(NAMES[:b]) + ["v"]
